@@ -392,7 +392,7 @@ func c16Case(res *core.Result, rng *rand.Rand, idx int) {
 			}
 		}
 		fnNames = []string{"phone", "int", "g_both", "g_all", "email", "l_only", "g_only", "ipv6", "nosuch_fn", "ip", "noDigit", "IsAdmin", "G_Mixed", "NoSuch_Fn"} // names are taken as written: letter case included
-		res.Count("collision|global+builtin") // email / ipv6 are always registered globally over the built-ins
+		res.Count("collision|global+builtin")                                                                                                                       // email / ipv6 are always registered globally over the built-ins
 	}
 	layouts := []string{"none", "unscoped", "scoped-inner", "scoped-outer", "scoped-both", "unscoped+scoped-inner", "unscoped+empty-scoped-outer", "scoped-two-inner"}
 	layout := layouts[rng.Intn(len(layouts))]
